@@ -93,8 +93,10 @@ def run(self):
         if not isinstance(c.returns, Seq):
             raise ContractError("yield_seq needs returns=Seq(elt)")
         st.ghost["yielded"] = Val(c.returns, z3.Empty(c.returns.sort()), parts=("items", []))
-    if c.complete:
-        # an arbitrary value that the generator is obliged to yield; `found` records whether it has been
+    if c.complete and getattr(self, "complete_mode", False):
+        # SECOND PASS of a generator with a completeness clause (the first pass verifies everything else and knows nothing
+        # about w): an arbitrary value w satisfying `when` must be yielded; `found` records whether it has been.  Only the
+        # completeness obligations of this pass are kept (pyvc/run.py), so the assumption on w touches nothing else.
         w = self.fresh_of_type(c.complete["type"], st, c.complete["var"])
         st.ghost[c.complete["var"]] = w
         self.inputs[c.complete["var"]] = w
@@ -146,7 +148,7 @@ def check_exit(self, o):
         self.ghost_exec(c.ghost_stmts["exit"], gs)
         st.heap, st.ghost = gs.heap, gs.ghost
     self.covers.append((f"{c.qual}/exit.cover", list(st.pc)))
-    if c.complete:
+    if c.complete and getattr(self, "complete_mode", False):
         self.oblige(f"{sid}.complete", st, st.ghost["found"].z,
                     f"every {c.complete['var']} with {' and '.join(c.complete['when'])} has been yielded")
     res = o.value if o.kind == "return" and o.value is not None else none_val()
@@ -230,6 +232,10 @@ def ex_stmt(self, s, st):
     if m is None:
         raise Untranslatable(f"statement {type(s).__name__}")
     gs = self.cur_contract.ghost_stmts if self.cur_contract is not None else {}
+    if getattr(self, "complete_mode", False) and self.cur_contract is self.c and self.c.complete:
+        gs = dict(gs)
+        for k_, v_ in (self.c.complete.get("ghost_stmts") or {}).items():
+            gs[k_] = list(gs.get(k_, [])) + list(v_)
     sid = self.cur_site.split("/")[-1] if self.cur_site else None
     if gs and sid and f"before:{sid}" in gs:
         self.ghost_exec(gs[f"before:{sid}"], st)
@@ -407,7 +413,7 @@ def mark_found(self, st, cond):
 def do_yield(self, node, val, st):
     self.yield_sites += 1
     sid = self.site(node)
-    if self.c.complete and self.cur_fn == self.c.qual:
+    if self.c.complete and getattr(self, "complete_mode", False) and self.cur_fn == self.c.qual:
         w = st.ghost[self.c.complete["var"]]
         mark_found(self, st, self.concretise(val, w.t, st).z == w.z)
     if self.c.yield_seq and self.cur_fn == self.c.qual:
@@ -435,7 +441,7 @@ def do_yield(self, node, val, st):
 def do_yield_from(self, node, val, st):
     self.yield_sites += 1
     sid = self.site(node)
-    if self.c.complete and self.cur_fn == self.c.qual:
+    if self.c.complete and getattr(self, "complete_mode", False) and self.cur_fn == self.c.qual:
         # the delegated iterable yields w if its element at SOME position equals w.  The position j0 is either the
         # witness given by the callee's own completeness (instantiated at the hinted value) or stays arbitrary.
         w = st.ghost[self.c.complete["var"]]
@@ -797,6 +803,13 @@ def loop_spec(self, node):
     sid = self.site(node)
     k = int(sid.split("#")[-1]) if "#" in sid else 0
     spec = self.cur_contract.loops.get(k) if self.cur_contract else None
+    if getattr(self, "complete_mode", False) and self.cur_contract is self.c and self.c.complete \
+            and k in (self.c.complete.get("invariants") or {}):
+        from .dsl import LoopSpec
+        base = spec or LoopSpec()
+        spec = LoopSpec(invariant=list(base.invariant) + list(self.c.complete["invariants"][k]), decreases=base.decreases,
+                        modifies=base.modifies, ghost_before=base.ghost_before, ghost_end=base.ghost_end, index=base.index)
+        spec.n_base = len(base.invariant)
     return sid, k, spec
 
 
@@ -826,6 +839,11 @@ def exec_loop(self, node, st, iterable):
         st.ghost[f"_n{k}"] = int_val(view.length)
         if getattr(view, "keys_seq", None) is not None:
             st.ghost[f"_keys{k}"] = view.keys_seq       # the (arbitrary) enumeration of the iterated dict/set
+    # locals first assigned inside the loop: give them an arbitrary (typed) value before the loop so that invariants may
+    # mention them (the value is unconstrained; reading it before assignment would be an UnboundLocalError, A9)
+    for n in sorted(self.written_names(list(node.body))):
+        if n not in st.env and self.cur_contract is not None and self.cur_contract.locals.get(n) is not None:
+            st.env[n] = self.fresh_of_type(self.cur_contract.locals[n], st, n)
     # 1. invariant holds on entry
     for j, inv in enumerate(spec.invariant):
         self.oblige(f"{sid}.inv{j}.entry", st, self.spec_truth(inv, st), inv)
